@@ -154,3 +154,25 @@ Proof. exact double_refines. Qed.
 Theorem C20_auto_probing_refines_map : forall ops a mm, arep a mm -> Forall (fun kv => fst kv <> 0) ops ->
   auto_run a ops = amap_run mm ops.
 Proof. exact auto_run_refines. Qed.
+
+(* ---- "a bit-packed array is an array": for the GENERATED write/read routines, any sequence of writes at pairwise disjoint bit
+        windows -- in any order, by either the 25-bit or the 57-bit routine -- into memory that is zero there reads back window
+        by window (through either routine that is wide enough), and no other bit changes; instantiated to the cells (record i,
+        field f) of a bit-packed record array with any field layout inside the record width. *)
+From Kenlm Require Import C20.ArrayProofs.
+Theorem C20_disjoint_writes_read_back : forall base ws mem, 0 <= base -> Forall wok ws -> ForallOrdPairs wdisj ws ->
+  (forall w i, In w ws -> 8 * base + w_off w <= i < 8 * base + w_off w + w_len w -> Z.testbit mem i = false) ->
+  let mem' := fold_left (do_write base) ws mem in
+  (forall w k, In w ws -> w_len w <= maxlen k -> do_read mem' base k (w_off w) (w_len w) = w_val w) /\
+  (forall i, 0 <= i -> (forall w, In w ws -> i < 8 * base + w_off w \/ 8 * base + w_off w + w_len w <= i) ->
+             Z.testbit mem' i = Z.testbit mem i).
+Proof. exact disjoint_writes_read_back. Qed.
+
+Theorem C20_record_array_read_back : forall base tb (L : list cell) mem, 0 <= base -> 0 <= tb ->
+  Forall (cell_ok tb) L -> ForallOrdPairs cell_apart L ->
+  (forall c i, In c L -> 8 * base + (fst (fst c) * tb + f_off (snd (fst c))) <= i <
+                         8 * base + (fst (fst c) * tb + f_off (snd (fst c))) + f_len (snd (fst c)) -> Z.testbit mem i = false) ->
+  let mem' := fold_left (do_write base) (map (cell_write tb) L) mem in
+  forall c k, In c L -> f_len (snd (fst c)) <= maxlen k ->
+    do_read mem' base k (fst (fst c) * tb + f_off (snd (fst c))) (f_len (snd (fst c))) = snd c.
+Proof. exact record_array_read_back. Qed.
